@@ -117,11 +117,6 @@ func (e *Engine) setupExt() {
 		e.addAssume(And(FLe(FPConst(0), v), FLt(v, FPConst(1))))
 		return v
 	}
-	x["text/template.New"] = func(e *Engine, fr *frame, a []value) value { return (*value)(nil) }
-	x["(*text/template.Template).Parse"] = func(e *Engine, fr *frame, a []value) value {
-		return tuple{(*value)(nil), zero(types.Universe.Lookup("error").Type())}
-	}
-	x["text/template.Must"] = func(e *Engine, fr *frame, a []value) value { return a[0] }
 	x["(time.Duration).Nanoseconds"] = func(e *Engine, fr *frame, a []value) value { return a[0] }
 	x["crypto/sha256.Sum256"] = func(e *Engine, fr *frame, a []value) value {
 		s, ok := a[0].(*bytesV).goString()
